@@ -420,6 +420,10 @@ class PVLParser(object):
 
         try:
             self.parse_around_equals(tokens)
+        except LexerError:
+            # The lexer has already given up on the text (and is finished),
+            # this is not a mere missing equals sign.
+            raise
         except ValueError:
             tokens.throw(
                 ValueError, f'Expecting an equals sign after "{begin}" '
